@@ -810,14 +810,17 @@ class ManifestRecursiveLoader:
                         else:
                             new_mpath = mpath[:-len(compr)-1]
 
-                        # do the rename!
-                        self.loaded_manifests[new_mpath] = m
+                        # do the rename! (keeping the position in the load
+                        # order, which the processing order above relies on)
+                        self.loaded_manifests = dict(
+                            (new_mpath if k == mpath else k, v)
+                            for k, v in self.loaded_manifests.items()
+                            if k != new_mpath)
                         # NB: must precede save_manifest() which signs
                         # only the top-level Manifest
                         if mpath == self.top_level_manifest_filename:
                             self.top_level_manifest_filename = new_mpath
                         self.save_manifest(new_mpath)
-                        del self.loaded_manifests[mpath]
                         os.unlink(os.path.join(self.root_directory,
                                                mpath))
                         renamed_manifests[mpath] = new_mpath
